@@ -54,6 +54,11 @@ class Universe:
                 "x+1==5": x + 1 == 5,
                 "x==6": x == 6,
                 "y<u2": claripy.ULT(y, 2),
+                # optimum-cutting constraints (each removes exactly one extreme value) and a y equality
+                "x!=3": x != 3,
+                "x!=7": x != 7,
+                "x!=4": x != 4,
+                "y==2": y == 2,
             }
             self.E = {"x": x, "y": y, "x+y": x + y, "x-y": x - y}
             self.X = {"none": (), "x==6": (x == 6,), "y<u2": (claripy.ULT(y, 2),), "y>u6": (claripy.UGT(y, 6),)}
@@ -307,7 +312,7 @@ def apply_event(run: Run, ev, check=True):
         ok = False
         detail = dict(reason=reason, **kw)
 
-    xk = {"exact": False} if run.cfg.get("exact_false") else {}
+    xk = {"exact": False} if run.cfg.get("exact_false") else ({"exact": True} if run.cfg.get("exact_true") else {})
 
     try:
         if kind == "add":
